@@ -104,6 +104,10 @@ def targeted(rng, tier):
     for nv in [2, 3, 4, 255, 256, 257]:
         out.append({"k": "union", "name": names.fresh(), "ver": [1, 0],
                     "fs": [["v%d" % i, u8 if i % 2 else {"k": "prim", "p": "uint", "w": 1 + i % 17, "c": "sat"}] for i in range(nv)]})
+    # the 16-bit tag boundary needs 2**16 variants (emitted to Coq as a generated term; members are not observed one by one)
+    u16 = {"k": "prim", "p": "uint", "w": 16, "c": "sat"}
+    for nv in [65535, 65536, 65537]:
+        out.append({"k": "union", "name": names.fresh(), "ver": [1, 0], "fs": [["v%d" % i, u8 if i % 2 == 0 else u16] for i in range(nv)]})
     out.append({"k": "union", "name": names.fresh(), "ver": [1, 0], "fs": [["only", u8]]})  # rejected: one variant
     # constants are attributes but not variants: they must not influence the tag width
     for nv, nc in [(200, 100), (255, 2), (256, 1), (3, 300), (2, 1)]:
@@ -135,6 +139,24 @@ def targeted(rng, tier):
             [None, {"k": "void", "w": 5}]]
     for perm in itertools.permutations(four):
         out.append({"k": "struct", "name": names.fresh(), "ver": [1, 0], "fs": [list(p) for p in perm]})
+    # offset sets whose ends are byte-aligned but whose interior is not (8 + {0..c} * w with c * w a multiple of 8), followed by
+    # an aligned member and a sub-byte tail: padding decided from min/max alone goes wrong exactly here
+    def sub(w):
+        return {"k": "prim", "p": "uint", "w": w, "c": "sat"}
+    for w, c in [(12, 2), (4, 2), (1, 8), (2, 4), (6, 4), (3, 8), (20, 2), (1, 16), (5, 8), (7, 8), (12, 4), (10, 4)]:
+        for mid_kind in ("struct", "delim", "union", "array"):
+            for tail in (1, 4, 7):
+                core = {"k": "struct", "name": names.fresh(), "ver": [1, 0], "fs": [["x", sub(3 + tail)]]}
+                if mid_kind == "struct":
+                    mid = core
+                elif mid_kind == "delim":
+                    mid = {"k": "delim", "i": core, "ext": 64}
+                elif mid_kind == "union":
+                    mid = {"k": "union", "name": names.fresh(), "ver": [1, 0], "fs": [["p", sub(5)], ["q", sub(16)]]}
+                else:
+                    mid = {"k": "fix", "e": core, "n": 2}
+                out.append({"k": "struct", "name": names.fresh(), "ver": [1, 0],
+                            "fs": [["samples", {"k": "var", "e": sub(w), "n": c}], ["inner", mid], ["tail", sub(tail)]]})
     return [mk_case(rng, t, tier) for t in out]
 
 
